@@ -123,6 +123,14 @@ Proof.
   - vm_compute. intros x [<-|[<-|[<-|[<-|[]]]]] Hn; auto; exfalso; apply Hn; auto.
 Qed.
 
+(* a transaction right after an errored write: the live buffer is empty, OpenTransaction does not rotate, the
+   transaction commits; the errored record is numbered below it and is gone *)
+Example C08_txn_after_errored_record :
+  let s := frun [FJSync 2; FOk (PTxnCommit 3); FOk PRotate; FOk (PWrite 1 true); FOk PDropFrozen] in
+  p_acked (f_p s) = [b 3 3; b 6 1] /\ recover (mk_image (f_p s) 0 0 0) = [b 3 3; b 6 1] /\
+  recover (mk_image (f_p s) 9 9 9) = [b 3 3; b 6 1].
+Proof. repeat split; vm_compute; reflexivity. Qed.
+
 (* ---- refuted: the behaviours repaired since (see known_findings.txt), as witnesses by computation ---- *)
 
 (* D3 (repaired 184f2b9): a failed journal Sync left the record in the journal without advancing the
